@@ -6,6 +6,7 @@ CONSTANTS
   KF_FindUnitRelock = TRUE
   MaxOps = 0
   ExportOps = 0
+  RequestStateKeptAcrossLines = FALSE
   VerifierRemembersTokens = FALSE
   RedactNeedsTLSRecord = FALSE
   KeyFamily = "cover"
